@@ -644,3 +644,112 @@ def ob_san(fns):
 
 
 NAMES = [ob_subtrees, ob_san]
+
+
+# ------------------------------------------------------------------------------------------ issuing entry points
+
+def _params(tag):
+    """a CertificateParams value: 13 fields, each its own cell (declaration order)"""
+    names = ["not_before", "not_after", "serial_number", "subject_alt_names", "distinguished_name", "is_ca", "key_usages", "extended_key_usages",
+             "name_constraints", "crl_distribution_points", "custom_extensions", "use_aki", "key_identifier_method"]
+    return Agg("CertificateParams", [Cell(Opaque(f"{tag}.{n}", f"{tag}.{n}")) for n in names])
+
+
+def _same_cell(ref, cell):
+    return isinstance(ref, Ref) and ref.cell is cell
+
+
+def ob_issuer_view(fns):
+    ob = Obligation("issuer_view", "the Issuer handed to the serializer takes name, key-identifier method and key usages from the ISSUER's parameters (self_signed: "
+                                   "from the subject's own) and the issuer key; the returned Certificate holds the caller's parameters and the SPKI of the "
+                                   "subject key; a serializer error is returned as Err",
+                    ["CertificateParams::signed_by", "CertificateParams::self_signed", "CertificateSigningRequestParams::signed_by",
+                     "CertificateRevocationListParams::signed_by (up to the call of serialize_der)"])
+    cases = [
+        ("cert_signed_by", r"::signed_by$", r"^CertificateParams$"),
+        ("self_signed", r"::self_signed$", r"^CertificateParams$"),
+        ("csr_signed_by", r"::signed_by$", r"^CertificateSigningRequestParams$"),
+        ("crl_signed_by", r"::signed_by$", r"^CertificateRevocationListParams$"),
+    ]
+    for (case, name_re, a0) in cases:
+        eng, models = setup(fns)
+        f = find(fns, name_re, a0)
+        subj = _params("subject")
+        iss_params = _params("issuer")
+        issuer_cert = Agg("Certificate", [Cell(iss_params), Cell(Opaque("issuer.spki")), Cell(Opaque("issuer.der"))])
+        issuer_cell = Cell(issuer_cert)
+        issuer_key = Cell(Opaque("issuer_key", "issuer_key"))
+        subject_key = Cell(Opaque("subject_key", "subject_key"))
+        st = State()
+        st.roots.update({"issuer": issuer_cell, "issuer_key": issuer_key, "subject_key": subject_key})
+        if case == "cert_signed_by":
+            self_cell = Cell(subj)
+            args = [subj, Ref(subject_key), Ref(issuer_cell), Ref(issuer_key)]
+        elif case == "self_signed":
+            args = [subj, Ref(subject_key)]
+        elif case == "csr_signed_by":
+            csrp = Agg("CertificateSigningRequestParams", [Cell(subj), Cell(Opaque("csr.public_key", "csr.public_key"))])
+            args = [csrp, Ref(issuer_cell), Ref(issuer_key)]
+        else:
+            crlp = Agg("CertificateRevocationListParams", [Cell(Opaque("this_update", "this_update")), Cell(Opaque("next_update", "next_update")),
+                                                            Cell(Opaque("crl_number")), Cell(Opaque("idp")), Cell(Opaque("revoked")), Cell(Opaque("kid"))])
+            args = [crlp, Ref(issuer_cell), Ref(issuer_key)]
+        st.roots["arg0"] = Cell(args[0])
+        n_ok = n_err = 0
+        for (s2, ret) in eng.run_fn(f, args, st):
+            ob.paths += 1
+            ob.reach = True
+            cuts = [e for e in s2.events if e[0] == "cut"]
+            is_err = isinstance(ret, Agg) and ret.kind.startswith("variant:1")
+            if not cuts:
+                # refused before serializing (CRL guards): must be an Err
+                if not is_err:
+                    ob.result, ob.cex = "fail", {"op": "issuer-view", "case": case, "note": "returns Ok without serializing"}
+                    return ob
+                n_err += 1
+                continue
+            cut = cuts[0]
+            issuer_arg = [a for a in cut[2] if isinstance(a, Agg) and a.kind.startswith("Issuer")]
+            if len(issuer_arg) != 1:
+                raise Unsupported(f"{case}: Issuer argument not found at the cut")
+            iss = issuer_arg[0]
+            src_params = s2.roots["issuer"].v.fields[0].v if case != "self_signed" else s2.roots["arg0"].v
+            key_cell = s2.roots["issuer_key"] if case != "self_signed" else s2.roots["subject_key"]
+            dn_ok = _same_cell(iss.fields[0].v, src_params.fields[4])
+            kid_ok = _same_cell(iss.fields[1].v, src_params.fields[12])
+            ku = iss.fields[2].v
+            ku_ok = isinstance(ku, Ref) and ku.cell is src_params.fields[6]
+            key_ok = _same_cell(iss.fields[3].v, key_cell)
+            if not (dn_ok and kid_ok and ku_ok and key_ok):
+                which = [n for n, ok in (("distinguished_name", dn_ok), ("key_identifier_method", kid_ok), ("key_usages", ku_ok), ("key_pair", key_ok)) if not ok]
+                ob.result, ob.cex = "fail", {"op": "issuer-view", "case": case, "note": f"Issuer.{'/'.join(which)} is not taken from the issuer"}
+                return ob
+            # CRL: an Ok path exists only if nextUpdate is later than thisUpdate (whole seconds) and the issuer may sign CRLs
+            if case == "crl_signed_by":
+                ts_n, ts_t = z3.Int("unix_ts_next_update"), z3.Int("unix_ts_this_update")
+                goal = z3.And(ts_n > ts_t, z3.Or(z3.Bool("issuer_ku_is_empty"), z3.Bool("issuer_ku_contains_crl_sign")))
+                r = check_valid(ob, s2.pc, goal, f"issuer-view/{case}/guards")
+                if r is not None and r != "infeasible":
+                    ob.result, ob.cex = "fail", {"op": "crl-guard", "note": "a CRL is serialized although nextUpdate <= thisUpdate (in seconds) or the issuer lacks cRLSign"}
+                    return ob
+            if is_err:
+                n_err += 1
+                continue
+            n_ok += 1
+            if case != "crl_signed_by":
+                cert = ret.fields[0].v if isinstance(ret, Agg) and ret.kind.startswith("variant:0") else None
+                if not (isinstance(cert, Agg) and cert.kind.endswith("Certificate")):
+                    raise Unsupported(f"{case}: Ok payload shape")
+                want_params = s2.roots["arg0"].v if case != "csr_signed_by" else s2.roots["arg0"].v.fields[0].v
+                if cert.fields[0].v is not want_params:
+                    ob.result, ob.cex = "fail", {"op": "issuer-view", "case": case, "note": "returned Certificate does not hold the caller's parameters"}
+                    return ob
+        if n_ok == 0 or n_err == 0:
+            ob.result, ob.reason = "inconclusive", f"{case}: Ok paths {n_ok}, Err paths {n_err}"
+            return ob
+        ob.queries += 1
+    ob.result = "pass"
+    return ob
+
+
+ISSUING = [ob_issuer_view]
